@@ -269,6 +269,29 @@ static void aws_main(void *arg) {
     aws_thread_clean_up(&th);
 }
 
+/* aws_thread_launch with options: each pthread_attr_* call of the library can be made to fail */
+static int s_attr_rc[4];
+static void attr_main(void *arg) {
+    (void)arg;
+    for (int which = 0; which < 4; ++which) {
+        struct aws_thread th;
+        aws_thread_init(&th, aws_default_allocator());
+        struct aws_thread_options o = *aws_default_thread_options();
+        if (which == DS_ATTR_SETSTACKSIZE) {
+            o.stack_size = 256 * 1024;
+        }
+        if (which == DS_ATTR_SETAFFINITY) {
+            o.cpu_id = 0;
+        }
+        ds_fail_next_attr(which, which == DS_ATTR_INIT ? ENOMEM : EINVAL);
+        s_attr_rc[which] = aws_thread_launch(&th, aws_fn, NULL, &o) == AWS_OP_SUCCESS ? 0 : aws_last_error();
+        if (s_attr_rc[which] == 0) {
+            aws_thread_join(&th);
+        }
+        aws_thread_clean_up(&th);
+    }
+}
+
 static int count_kind(int kind) {
     int n = 0;
     for (size_t i = 0; i < ds_event_count(); ++i) {
@@ -406,10 +429,25 @@ int main(void) {
         CHECK("injected pthread_create failure", rc == 0 && s_create_rc[0] == 0 && s_create_rc[1] == EAGAIN && s_create_rc[2] == 0 && ds_thread_count() == 3);
     }
 
+    /* pthread_attr_* failure injection reaches the library's aws_thread_launch */
+    {
+        struct ds_config cfg = {.mode = DS_SEED, .seed = 7};
+        ds_init(&cfg);
+        s_aws_ran = 0;
+        int rc = ds_run(attr_main, NULL);
+        /* init / setstacksize / getstacksize failures fail the launch; a setaffinity failure is retried unpinned */
+        CHECK("injected pthread_attr_* failures (init, setstacksize, getstacksize fail the launch; setaffinity is retried)",
+              rc == 0 && ds_attr_fault_count() == 4 && s_attr_rc[DS_ATTR_INIT] == AWS_ERROR_OOM &&
+                  s_attr_rc[DS_ATTR_SETSTACKSIZE] == AWS_ERROR_THREAD_INVALID_SETTINGS &&
+                  s_attr_rc[DS_ATTR_GETSTACKSIZE] == AWS_ERROR_THREAD_INVALID_SETTINGS && s_attr_rc[DS_ATTR_SETAFFINITY] == 0 &&
+                  s_aws_ran == 1 && ds_thread_count() == 2);
+    }
+
     /* calls from inside the static library are wrapped */
     {
         struct ds_config cfg = {.mode = DS_SEED, .seed = 5};
         ds_init(&cfg);
+        s_aws_ran = 0;
         int rc = ds_run(aws_main, NULL);
         CHECK("library-calls-are-wrapped (aws_thread_launch / aws_mutex_lock / aws_thread_join from libawsc.a)",
               rc == 0 && s_aws_ran == 1 && ds_thread_count() == 2 && count_kind(DS_CREATE) == 1 && count_kind(DS_LOCK) == 1 &&
